@@ -21,6 +21,10 @@ suffix property must hold for W' = W-before-the-operation + some prefix of the i
 opened on it ("reboot"), more data is written to force further rotations over the possibly gapped
 numbering, and the property must still hold relative to what was retained.
 
+Containment: every path handed to twisted lives under one mkdtemp() top and ALL target code (also the
+crash-free phases and the reboots) runs inside a FaultFS, which refuses — without executing — any
+mutating filesystem call outside that top and reports it as `filesystem-call-outside-scratch`.
+
 Guards: the oracle never predicts *when* a rotation happens (`LogFile.size` counts characters, not
 bytes, for text — a later rotation is allowed by "at least the rotation length"); explicit
 `rotate()` calls are exempt from the size requirement; after a crash the retention count is only
@@ -334,8 +338,8 @@ def run_history(ctx, hid, crash):
 def run(ctx):
     if not selftest_or_inconclusive(ctx):
         return
-    n_crash = ctx.size(150, 10000)
-    for hid in ctx.cases(1200, 100000):
+    n_crash = ctx.size(250, 10000)
+    for hid in ctx.cases(2000, 100000):
         run_history(ctx, hid, crash=hid < n_crash)
 
 
